@@ -347,8 +347,8 @@ func execC07(ctx *core.Ctx, c *c07Case) {
 					viol("columns.hidden_helper_visible", map[string]string{"column_pattern": c07Pattern(name)},
 						fmt.Sprintf("delivered row carries the helper column %q: %s", name, core.J(out)))
 				case isGroupCol[name]:
-					viol("columns.unselected_group_key_visible", nil,
-						fmt.Sprintf("GROUP BY column %q is not in the SELECT list but is delivered: %s (SELECT output names: %s)", name, core.J(out), c.outNames()))
+					// not a violation: the grouping columns are delivered whether selected or not (DESIGN §9)
+					ctx.Count("columns.unselected_group_key_delivered", 1)
 				default:
 					viol("columns.unexpected_column", map[string]string{"column_pattern": c07Pattern(name)},
 						fmt.Sprintf("delivered row carries %q which is no SELECT output name: %s", name, core.J(out)))
